@@ -433,6 +433,9 @@ GenBadKeyPackage(p, why) ==
     /\ Record("GenKeyPackage", p, [kp |-> Len(kps) + 1, bad |-> why], "ok", [x |-> 0])
 
 \* ---- proposals (by reference) ----
+\* who signed a proposal: a member (default), the external sender, or a party proposing its own addition
+SenderOf(pr) == IF "sender" \in DOMAIN pr THEN pr.sender ELSE "member"
+
 NewProp(pr) ==
     /\ Len(props) < MaxProps
     /\ props' = Append(props, pr)
@@ -493,6 +496,20 @@ ProposeReinit(p) ==
     /\ ~\E j \in 1..Len(props) : props[j].kind = "reinit" /\ props[j].by = p /\ props[j].ks = grp[p].ks
     /\ Propose(p, [kind |-> "reinit", kp |-> 0, target |-> 0], [x |-> 0])
 
+\* Client::external_add_proposal: a party that is not a member asks to be added (sender new_member_proposal);
+\* it generates the key package on the spot, from the GroupInfo and tree published by member r
+NewMemberPropose(q, r) ==
+    LET j == Len(props) + 1  i == Len(kps) + 1 IN
+    /\ "newmember" \in Features /\ ~HasGroup(q) /\ HasGroup(r) /\ q \notin Members(grp[r].tree)
+    /\ Len(kps) < MaxKps
+    /\ ~\E k \in 1..Len(kps) : kps[k].owner = q /\ ~kps[k].used
+    /\ ~\E k \in 1..Len(props) : props[k].kind = "add" /\ props[k].ks = grp[r].ks
+    /\ kps' = Append(kps, [owner |-> q, cv |-> 0, used |-> FALSE, bad |-> ""])
+    /\ NewProp([kind |-> "add", kp |-> i, target |-> 0, by |-> q, sender |-> "newmember", byLeaf |-> NoLeaf,
+                ks |-> grp[r].ks, epoch |-> grp[r].epoch, gen |-> 0])
+    /\ UNCHANGED <<grp, zomb, commits, winner, opt, repo, store, apps, det>>
+    /\ Record("NewMemberPropose", q, [from |-> r, kp |-> i, prop |-> j], "ok", [x |-> 0])
+
 \* a member receives a proposal message
 DeliverProposal(q, j) ==
     LET g == grp[q]  pr == props[j] IN
@@ -500,10 +517,12 @@ DeliverProposal(q, j) ==
     /\ j \notin g.cache
     /\ IF pr.ks = g.ks /\ pr.epoch = g.epoch
        THEN LET r == RatchetOf(g.hsRecv, pr.byLeaf)
-                v == IF opt.enc THEN RatchetVerdict(r, pr.gen) ELSE "ok"
+                \* proposals of non-members are always PublicMessages
+                enc == opt.enc /\ SenderOf(pr) = "member"
+                v == IF enc THEN RatchetVerdict(r, pr.gen) ELSE "ok"
             IN IF v = "ok"
                THEN /\ grp' = [grp EXCEPT ![q].cache = @ \cup {j},
-                                          ![q].hsRecv = IF opt.enc THEN (pr.byLeaf :> RatchetAfter(r, pr.gen)) @@ @ ELSE @]
+                                          ![q].hsRecv = IF enc THEN (pr.byLeaf :> RatchetAfter(r, pr.gen)) @@ @ ELSE @]
                     /\ Record("DeliverProposal", q, [prop |-> j], "ok", [x |-> 0])
                ELSE \* an encrypted proposal whose handshake generation was already used by this sender
                     \* (the sender was rolled back to an older snapshot) is a replay for the receiver
@@ -987,12 +1006,27 @@ ObsJoin(p) ==
 NoJitter == 99999      \* max_epoch_jitter not configured
 InWindow(e) == opt.jit = NoJitter \/ e >= (IF obs.epoch >= opt.jit THEN obs.epoch - opt.jit ELSE 0)
 
+\* the observer as external sender (its signing identity is listed in the group's ExternalSenders extension):
+\* ExternalGroup::propose_add / propose_remove; the proposal is a PublicMessage and the observer caches it
+ObsPropose(kind, arg) ==
+    LET j == Len(props) + 1 IN
+    /\ "extsender" \in Features /\ obs.st = "on" /\ kind \in {"add", "rem"}
+    /\ (kind = "add" => /\ arg \in 1..Len(kps) /\ ~kps[arg].used /\ kps[arg].owner \notin Members(obs.tree)
+                        /\ ~\E k \in 1..Len(props) : props[k].kind = "add" /\ props[k].ks = obs.ks)
+    /\ (kind = "rem" => /\ arg \in OccupiedLeaves(obs.tree)
+                        /\ ~\E k \in 1..Len(props) : props[k].kind = "rem" /\ props[k].target = arg /\ props[k].ks = obs.ks)
+    /\ NewProp([kind |-> kind, kp |-> IF kind = "add" THEN arg ELSE 0, target |-> IF kind = "rem" THEN arg ELSE 0,
+                by |-> "observer", sender |-> "external", byLeaf |-> NoLeaf, ks |-> obs.ks, epoch |-> obs.epoch, gen |-> 0])
+    /\ obs' = [obs EXCEPT !.cache = @ \cup {j}]
+    /\ ObsStep("ObsPropose", [kind |-> kind, arg |-> arg, prop |-> j], "ok")
+    /\ UNCHANGED <<grp, zomb, kps, commits, winner, opt, repo, store, apps, det>>
+
 ObsDeliverProposal(j) ==
     LET pr == props[j] IN
     /\ "observer" \in Features /\ obs.st = "on" /\ j \in 1..Len(props) /\ j \notin obs.cache
     /\ IF pr.epoch # obs.epoch \/ (~opt.enc /\ pr.ks # obs.ks)
        THEN /\ UNCHANGED obs /\ ObsStep("ObsDeliverProposal", [prop |-> j], "err:epoch")
-       ELSE IF opt.enc
+       ELSE IF opt.enc /\ SenderOf(pr) = "member"
        THEN /\ UNCHANGED obs /\ ObsStep("ObsDeliverProposal", [prop |-> j], "ok:ciphertext")
        ELSE /\ obs' = [obs EXCEPT !.cache = @ \cup {j}]
             /\ ObsStep("ObsDeliverProposal", [prop |-> j], "ok")
@@ -1050,6 +1084,7 @@ MemberNext ==
     \/ \E p \in Parties : ProposeReinit(p)
     \/ \E p \in Parties : ProposeCustom(p)
     \/ \E q \in Parties : \E j \in 1..Len(props) : DeliverProposal(q, j)
+    \/ \E q, r \in Parties : NewMemberPropose(q, r)
     \/ \E p \in Parties : HasGroup(p) /\ \E bv \in ByValueSeqs(grp[p]) : \E dt \in BOOLEAN : Commit(p, bv, dt)
     \/ \E p \in Parties : ClearPending(p)
     \/ \E q, p \in Parties : \E rs \in BOOLEAN : ExternalCommit(q, p, rs)
@@ -1152,6 +1187,7 @@ SuccNext ==
 ObsNext ==
     \/ \E p \in Parties : ObsJoin(p)
     \/ \E j \in 1..Len(props) : ObsDeliverProposal(j)
+    \/ \E arg \in 0..MaxKps : \E kind \in {"add", "rem"} : ObsPropose(kind, arg)
     \/ \E n \in 1..Len(commits) : ObsDeliverCommit(n)
     \/ \E a \in 1..Len(apps) : \E gen \in apps[a].lo..apps[a].hi : ObsDeliverApp(a, gen)
     \/ ObsSnapshotRestore
